@@ -221,21 +221,23 @@ def r1_index(ctx):
                 guard = st
     ctx.ob("R1.column-guard", GEO, f.name, "indices.shape[-1] != expected_amount", guard is not None,
            "an index array with the wrong number of columns must be refused, not silently truncated", f.lineno)
-    # gather loop
-    loops = [st for st in stmts(f) if isinstance(st, ast.For)]
+    # gather: element i of the argument list is coord(atoms)[..., indices[:, i], :], i over range(expected_amount)
+    # (a for loop with append, or a comprehension)
     ok = False
     con = ""
-    for lp in loops:
-        if isinstance(lp.target, ast.Name) and isinstance(lp.iter, ast.Call) and call_name(lp.iter) == "range" \
-                and len(lp.iter.args) == 1 and ast.unparse(lp.iter.args[0]) == "expected_amount":
-            i = lp.target.id
-            for n_ in walk_local(lp):
-                if isinstance(n_, ast.Subscript) and isinstance(n_.slice, ast.Tuple) and len(n_.slice.elts) == 3:
-                    e0, e1, e2 = n_.slice.elts
-                    con = ast.unparse(n_)
-                    if isinstance(e0, ast.Constant) and e0.value is Ellipsis and isinstance(e2, ast.Slice) \
-                            and ast.unparse(e1) == f"indices[:, {i}]" and call_name(n_.value) == "coord" if isinstance(n_.value, ast.Call) else False:
-                        ok = True
+    iters = []
+    for n_ in walk_local(f):
+        if isinstance(n_, ast.For) and isinstance(n_.target, ast.Name):
+            iters.append((n_.target.id, n_.iter, n_))
+        elif isinstance(n_, (ast.ListComp, ast.GeneratorExp)) and len(n_.generators) == 1 and isinstance(n_.generators[0].target, ast.Name):
+            iters.append((n_.generators[0].target.id, n_.generators[0].iter, n_))
+    for var, it, scope in iters:
+        if not same_expr(it, "range(expected_amount)"):
+            continue
+        for n_ in ast.walk(scope):
+            if isinstance(n_, ast.Subscript) and same_expr(n_, f"coord(atoms)[..., indices[:, {var}], :]"):
+                ok = True
+                con = ast.unparse(n_)
     ctx.ob("R1.gather", GEO, f.name, con or "for i in range(expected_amount)", ok,
            "parameter i of the geometry function must receive coord(atoms)[..., indices[:, i], :]", f.lineno)
     # final call
@@ -249,13 +251,6 @@ def r1_index(ctx):
                "(atoms.box if box is None else box) if periodic else None",
                "periodic=True uses the explicitly given box and falls back to atoms.box only when none is given; periodic=False uses no box",
                var="box")
-    # non periodic => box None
-    okn = False
-    for st in stmts(f):
-        if isinstance(st, ast.If) and ast.unparse(st.test) == "periodic":
-            okn = any(isinstance(s, ast.Assign) and ast.unparse(s) == "box = None" for s in st.orelse)
-    ctx.ob("R1.nonperiodic-box", GEO, f.name, "if periodic: ... else: box = None", okn,
-           "with periodic=False the box must not influence the result", f.lineno)
 
 
 # ---------------- R2 ---------------------------------------------------------
@@ -866,7 +861,7 @@ def r5_transform(ctx):
     cfg = CFG(f)
     dom, pdom = cfg.dominators(), cfg.postdominators()
     nodes = {ast.unparse(n.ast): n for n in cfg.nodes if n.kind == "stmt"}
-    rot = nodes.get("positions = np.dot(rot_matrix, positions.T).T")
+    rot = nodes.get("positions = np.dot(rot_matrix, positions.T).T") or nodes.get("positions = matrix_rotate(positions, rot_matrix)")
     nrm = next((n for k, n in nodes.items() if k == "norm_vector(axis)"), None)
     ctx.ob("R5.axis-unit", TRF, f.name, "norm_vector(axis)", rot is not None and nrm is not None and nrm.id in dom[rot.id],
            "the Rodrigues matrix is a rotation only for a unit axis: normalisation must dominate its use", f.lineno)
@@ -967,7 +962,7 @@ MUTANTS = [
     Mutant("index-angle-forwards-dihedral", GEO, "_call_non_index_function(angle, 3,", "_call_non_index_function(dihedral, 3,", "R1.index-forward"),
     Mutant("index-arity", GEO, "_call_non_index_function(distance, 2,", "_call_non_index_function(distance, 3,", "R1.index-arity"),
     Mutant("gather-column", GEO, "indices[:, i], :]", "indices[:, 0], :]", "R1.gather"),
-    Mutant("nonperiodic-keeps-box", GEO, "    else:\n        box = None\n", "    else:\n        pass\n", "R1.nonperiodic-box"),
+    Mutant("nonperiodic-keeps-box", GEO, "    else:\n        box = None\n", "    else:\n        pass\n", "R1.box-selection"),
     Mutant("explicit-box-overridden", GEO, "        if box is None:\n            if isinstance(atoms, (AtomArray, AtomArrayStack)):\n                box = atoms.box\n            else:\n                raise ValueError(\n                    \"If `atoms` are coordinates, the box must be set explicitly\"\n                )", "        if isinstance(atoms, (AtomArray, AtomArrayStack)):\n            box = atoms.box\n        elif box is None:\n            raise ValueError(\n                \"If `atoms` are coordinates, the box must be set explicitly\"\n            )", "R1.box-selection"),
     Mutant("displacement-sign", GEO, "diff = -(v1 - v2)", "diff = v1 - v2", "R2.displacement-sign"),
     Mutant("angle-not-normalised", GEO, "    norm_vector(v1)\n    norm_vector(v2)\n    return np.arccos", "    norm_vector(v1)\n    return np.arccos", "R2.angle-normalised"),
